@@ -1394,7 +1394,8 @@ class ForAll(BinaryOperator):
     @property
     @lru_cache(maxsize=None)
     def condition_unique_variable_ids(self) -> List[int]:
-        return [v.id_ for v in self.condition._unique_variables_.difference(self.left._unique_variables_)]
+        return [v.id_ for v in self.condition._unique_variables_.difference(self.left._unique_variables_)
+                if not isinstance(v.value, Literal)]
 
     def _evaluate__(self, sources: Optional[Dict[int, HashedValue]] = None,
                     yield_when_false: bool = False) -> Iterable[Dict[int, HashedValue]]:
@@ -1408,6 +1409,9 @@ class ForAll(BinaryOperator):
         for var_val in self.variable._evaluate__(sources):
             ctx = {**sources, **var_val}
             current = []
+            # Each universal value is a separate evaluation of the condition: outputs seen for the previous value
+            # are not duplicates of the outputs for this one.
+            self.condition._reset_cache_()
 
             # Evaluate the condition under this particular universal value
             for condition_val in self.condition._evaluate__(ctx):
